@@ -82,7 +82,7 @@ Fixpoint render_body (body : list (list N)) : list sx :=
 
 Definition render (ms : list member) : sx :=
   let bytes := write_zip ms in
-  if N.leb (lenN bytes) 300000 then SL [sym "full"; SB bytes]
+  if N.leb (lenN bytes) 150000 then SL [sym "full"; SB bytes]
   else
     let '(body, cd, cdstart) := lay ms 0 in
     SL (sym "chunks" :: render_body body
@@ -90,7 +90,7 @@ Definition render (ms : list member) : sx :=
 
 (* ---------------------------------------------------------------- verdict of the reader on one byte string *)
 Definition verdict (t : table) (bs : list N) (reqs : list (list N)) : sx :=
-  match open_archive bs with
+  match open_entry bs with
   | None => SN 0
   | Some ar =>
     SL (enc_b (get_bytes (decompress_t t) ar bs NAME_STDOUT)
